@@ -1,8 +1,8 @@
 //! C07/C08/C09: embedding round trip through the per-format handlers.
 //! case: {fmt, asset:{hex}|{fixture}|{file}, ops:[{op:"w",store:hex}|{op:"rm"}], dump?:dir}
 //! result: {r:"ok", init:{len,h,read,loc}, steps:[{op, r, kind?, len, h, hex?|file?, read, loc}]}
-//! An operation that fails leaves the current asset unchanged.  `h` is a polynomial hash
-//! (base 1000003, modulus 2^61-1, bytes offset by one) shared with the Coq model and the orchestrator.
+//! An operation that fails leaves the current asset unchanged.  `h` is a multiplicative hash
+//! (33*h + byte + 1 mod 2^64) shared with the Coq model and the orchestrator.
 use c2pa::{
     jumbf_io::{load_jumbf_from_memory, save_jumbf_to_memory},
     verif_hooks::c07::{verif_object_locations_from_memory, verif_remove_jumbf_from_memory},
@@ -11,15 +11,14 @@ use serde_json::{json, Value};
 
 use crate::util::*;
 
-const P: u128 = (1u128 << 61) - 1;
-const B: u128 = 1_000_003;
+const B: u64 = 33;
 
 pub fn poly_hash(data: &[u8]) -> u64 {
-    let mut h: u128 = 0;
+    let mut h: u64 = 0;
     for &x in data {
-        h = (h * B + x as u128 + 1) % P;
+        h = h.wrapping_mul(B).wrapping_add(x as u64).wrapping_add(1);
     }
-    h as u64
+    h
 }
 
 fn load_asset(a: &Value) -> Vec<u8> {
